@@ -183,7 +183,11 @@ static void on_fatal_signal(int sig) {
     raise(sig);
 }
 
+static bool g_hang_ok = false;
+void set_hang_after_fault_ok(bool on) { g_hang_ok = on; }
+
 void fail(const char* cls, const char* fmt, ...) {
+    if (g_hang_ok && (!strcmp(cls, "deadlock") || !strcmp(cls, "livelock"))) cls = "hang-after-fault";
     char buf[1800];
     va_list ap; va_start(ap, fmt); vsnprintf(buf, sizeof buf, fmt, ap); va_end(ap);
     finish(cls, buf);
